@@ -22,5 +22,7 @@ PROPS = {}
 
 # one file per property under propsd/: each executes with T, S, LEAN_TB, PROPS in scope
 import glob as _glob, os as _os
-for _p in sorted(_glob.glob(_os.path.join(_os.path.dirname(_os.path.abspath(__file__)), "propsd", "C*.py"))):
+_d = _os.path.join(_os.path.dirname(_os.path.abspath(__file__)), "propsd")
+# C*.py define entries; X*.py run afterwards and extend them (system-level slices shared by several properties)
+for _p in sorted(_glob.glob(_os.path.join(_d, "C*.py"))) + sorted(_glob.glob(_os.path.join(_d, "X*.py"))):
     exec(compile(open(_p).read(), _p, "exec"), {"T": T, "S": S, "LEAN_TB": LEAN_TB, "PROPS": PROPS})
